@@ -35,7 +35,7 @@ def gen_cases(ctx):
                 if ctx.quick and rng.random() < 0.35:
                     continue
                 cfg = dict(nworkers=rng.choice([1, 2, 3, 4]), extracache=rng.choice([0, 1, 2]), skipNone=True,
-                           maxtasksperchild=rng.choice([None, None, 1, 2]))
+                           maxtasksperchild=rng.choice([None, None, 1, 2]), verbose=rng.random() < 0.3)
                 table = [['u'] for _ in range(n)]
                 tail = None
                 nn = n
@@ -94,6 +94,11 @@ def judge(ctx, case, res, mout):
         ctx.fail('pool-not-terminated', 'a pool was created but never terminated when the stream ended by %s' % case['label'], small)
     if not any(e[0] == 'N' for e in ev) and firstP is not None and firstP <= end:
         ctx.fail('pool-before-first-next', 'a pool was created although the stream was never advanced', small)
+    firstN = next((i for i, e in enumerate(ev) if e[0] == 'N'), len(ev))
+    if any(e[0] == 'D' for e in ev[:firstN]):
+        # a stream that is created but not advanced does nothing at all — in a chain, drawing from the source IS advancing the
+        # upstream stage (and starting its processes)
+        ctx.fail('source-advanced-before-first-next', 'the source was asked for an element before the consumer asked for anything', small)
     if res.get('second_ok') is False:
         ctx.fail('process-cannot-run-further-pipelines', 'a second pipeline failed after the stop: %s' % res.get('notes'), small)
     if res.get('children_after_second'):
@@ -170,11 +175,22 @@ def interpreter_exit_cases(ctx):
             case = dict(interpreter_exit=mode, k=k, nworkers=params['nworkers'], extracache=params['extracache'])
             ctx.case(('exit', mode, k, params['nworkers'], params['extracache']), k >= 1, sample=case)
             ctx.count('way:interpreter-' + mode)
-            try:
-                out, err = p.communicate(timeout=40)
-            except subprocess.TimeoutExpired:
-                p.kill()
-                ctx.fail('interpreter-exit-hangs', 'the interpreter did not exit within 40 s with a suspended stream (%s)' % mode, case)
+            out = None
+            for attempt in range(3):
+                try:
+                    out, err = p.communicate(timeout=40)
+                    break
+                except subprocess.TimeoutExpired:
+                    # CPython's Pool.terminate() race (see c01.execute): only a repeatable hang is reported
+                    p.kill()
+                    p.communicate()
+                    ctx.count('scenarios_rerun_after_a_timeout')
+                    if attempt < 2:
+                        t0 = time.time()
+                        p = subprocess.Popen([core.PY, os.path.join(tmp, 'exit_%s_%d.py' % (mode, k))], stdout=subprocess.PIPE,
+                                             stderr=subprocess.PIPE, text=True, env=dict(os.environ, PYTHONDONTWRITEBYTECODE='1'))
+            if out is None:
+                ctx.fail('interpreter-exit-hangs', 'the interpreter did not exit within 40 s with a suspended stream (%s), three attempts' % mode, case)
                 continue
             wall = time.time() - t0
             want_rc = {'sysexit': 3, 'uncaught': 1, 'falloff': 0}[mode]
@@ -212,6 +228,10 @@ def check(ctx):
 
 def replay(ctx, data):
     case = data['case']
+    if 'streams' in case:
+        from harness.props import multistream
+        multistream.replay(ctx, case)
+        return
     if 'interpreter_exit' in case:
         interpreter_exit_cases(ctx)
         return
